@@ -121,6 +121,9 @@ def cutAfter (m : Nat) (l : List Nat) : List Nat :=
 
 def setInst (l : List Inst) (i : Nat) (v : Inst) : List Inst := l.set i v
 
+/-- `req.next`: the next older request of the same tag still in the table's chain (newest first) -/
+def olderOf (ch : List Nat) (r : Nat) : Option Nat := ((ch.dropWhile (· ≠ r)).tail).head?
+
 def LS.step (s : LS) : Ev → Option LS
   | .recv tag oldtag =>
     if s.closed then none else
@@ -212,6 +215,12 @@ def LS.step (s : LS) : Ev → Option LS
     | some it =>
       if it.pc = .unlink then
         let q := s.req it.rid
+        match olderOf (s.chain q.tag) it.rid with
+        | some od =>     -- answered while waiting behind an older request of its tag: out of the chain, nobody started
+          some { s with chain := updL s.chain q.tag ((s.chain q.tag).erase it.rid), unl := it.rid :: s.unl,
+                        req := upd s.req od { s.req od with prev := q.prev },
+                        insts := setInst s.insts i { it with pc := .next, nxt := none, cur := q.flushreq } }
+        | none =>
         match q.prev with
         | none =>        -- delete(conn.reqs, tag); flushreqs = req.flushreq
           some { s with chain := updL s.chain q.tag [], unl := it.rid :: s.unl,
@@ -288,7 +297,8 @@ def LS.tame (s : LS) : Ev → Bool
       | some t => (s.req t).oldtag == none
   | .unlink i =>
     match s.insts[i]? with
-    | some it => (s.req it.rid).prev == none || (s.req it.rid).flushreq == none
+    | some it => ((s.req it.rid).prev == none || (s.req it.rid).flushreq == none) &&
+        olderOf (s.chain (s.req it.rid).tag) it.rid == none
     | none => true
   | .next i =>
     match s.insts[i]? with
